@@ -74,6 +74,9 @@ THEOREMS = [
     "Nix.C05.detached_refused_by_extend",
     "Nix.C05.detached_refused_by_roles",
     "Nix.C05.deleted_is_detached",
+    "Nix.C05.kept_handle_cases",
+    "Nix.C05.detached_stays_detached",
+    "Nix.C05.deleted_entity_refused_forever",
 ]
 ASSUMPTIONS = [
     "HDF5 hard links are second names of one object (modelled: a link stores the target node's key); h5py object "
@@ -115,7 +118,10 @@ MANIFEST = {
                   "as the model's append does; extend is proved all-or-nothing (every item checked in the unchanged graph, "
                   "extend([x]) = append(x)); a node no group links any more (what a handle kept across the deletion of its "
                   "entity stands for) is proved refused by every list (append and extend), by positions / extents and by "
-                  "feature data, and deleting an entity from its block is proved to leave it such a node. The statement lists of "
+                  "feature data, and deleting an entity from its block is proved to leave it such a node - for ALL later histories "
+                  "(creations, also under its old name, deletions, append, extend, role links, attribute writes, reopen, and any "
+                  "of these calls handed any kept handle: every call only links what was linked before or is new, so the node is "
+                  "never linked again and every later state refuses it). The statement lists of "
                   "link_data_array / link_data_frame / remove_link / the ticks setter, the DataFrame branch of the DimensionLink.unit "
                   "getter and setter, the membership tests in front of "
                   "every link assignment and the object comparisons of Container.__contains__ / SourceLinkContainer are "
